@@ -176,7 +176,7 @@ class Gen:
             elif self.qubits and rng.random() < 0.1:
                 size = E.num(0)          # a routine that hands on an EMPTY register (a measurement, a discard)
             elif self.qubits:
-                size = gen_size_expr(rng, scope)
+                size = gen_size_expr(rng, scope_l)
             elif rng.random() < 0.08:
                 size = E.num(0)          # an empty register: a legitimate size (and, handed over natively, the integer 0)
             else:
@@ -197,7 +197,7 @@ class Gen:
                 if x["type"] in ("additive", "multiplicative") and rng.random() < self.mixed_types:
                     x["type"] = "multiplicative" if x["type"] == "additive" else "additive"
         if self.qubits and rng.random() < 0.5:
-            resources.append({"name": "local_ancillae", "type": "qubits", "value": gen_size_expr(rng, scope)})
+            resources.append({"name": "local_ancillae", "type": "qubits", "value": gen_size_expr(rng, scope_l)})
         if self.qubits and rng.random() < 0.12:
             # a hand-written estimate under the very name of the derived resource: the derivation must replace it
             resources.append({"name": "qubit_highwater", "type": "qubits", "value": gen_size_expr(rng, scope)})
@@ -343,7 +343,7 @@ class Gen:
             if scope_l and rng.random() < 0.3 and not under_rep and not any(x["name"] == "own" for x in resources):
                 resources.append({"name": "own", "type": "additive", "value": gen_expr(rng, scope_l, 2)})
         if self.qubits and rng.random() < 0.4 and not is_rep:
-            resources.append({"name": "local_ancillae", "type": "qubits", "value": gen_size_expr(rng, scope)})
+            resources.append({"name": "local_ancillae", "type": "qubits", "value": gen_size_expr(rng, scope_l)})
         if self.qubits and rng.random() < 0.12 and not is_rep:
             resources.append({"name": "qubit_highwater", "type": "qubits", "value": gen_size_expr(rng, scope)})
         node = {"name": name, "type": rng.choice([None, "comp", "comp", ""]), "input_params": params, "local_variables": locals_,
